@@ -10,7 +10,8 @@ CONSTANTS MaxTime, Pick(_), KnownGaps,
                                  \* (cfg files have no negative numbers)
           FixedStart,            \* >= 0: every submission carries this startsAt (limit configurations); -1: see StartOffs
           MaxBatch, Ops,
-          SameInstant            \* TRUE: two submissions of one label set at one instant are allowed
+          SameInstant            \* TRUE: Post1/Post2/PostN may submit a label set stored at this very instant
+                                 \* (PostDup / PostSame do that by construction)
 PickAll(S) == S
 PickOne(S) == {RandomElement(S)}
 
